@@ -337,6 +337,32 @@ func (e *env) takeSnapshot(sandbox, mode string) (*snap, error) {
 			return nil, fmt.Errorf("copy: %w", err)
 		}
 		s.dir = d
+	case "crashcopy":
+		// a copy taken while the DB is open, aged into the state a kill leaves right after the head chunk
+		// writer created its next file and before it wrote the header: an empty file with the next sequence
+		// number in chunks_head (ChunkDiskMapper removes such a file when it opens the directory read-write;
+		// a read-only open must leave it alone). Judged only (suite oooro).
+		d, err := os.MkdirTemp(tmpBase, "vrocrash")
+		if err != nil {
+			return nil, err
+		}
+		rm = append(rm, d)
+		if err := copyTree(e.dir, d); err != nil {
+			os.RemoveAll(d)
+			return nil, fmt.Errorf("copy: %w", err)
+		}
+		next := 1
+		ents, _ := os.ReadDir(filepath.Join(d, "chunks_head"))
+		for _, en := range ents {
+			if n, err := strconv.Atoi(en.Name()); err == nil && n >= next {
+				next = n + 1
+			}
+		}
+		os.MkdirAll(filepath.Join(d, "chunks_head"), 0o777)
+		if err := os.WriteFile(filepath.Join(d, "chunks_head", fmt.Sprintf("%06d", next)), nil, 0o666); err != nil {
+			return nil, err
+		}
+		s.dir = d
 	default:
 		return nil, fmt.Errorf("bad mode %q", mode)
 	}
@@ -953,6 +979,9 @@ func genOOO(c *h.Ctx, r *h.Rng, maxOps int) []string {
 			}
 			a, b := pickRange()
 			op := roOp(r, a, b)
+			if r.Chance(25) { // copy aged into a crash state (judged only, this stream has no model)
+				op = fmt.Sprintf("roq %d %d %s crashcopy", a, b, []string{"in", "out"}[r.Intn(2)])
+			}
 			if strings.HasSuffix(op, "clean") {
 				inTx = false
 			}
@@ -969,6 +998,23 @@ func genOOO(c *h.Ctx, r *h.Rng, maxOps int) []string {
 		}
 	}
 	endTx()
+	if r.Chance(60) {
+		// epilogue: make sure in-order blocks exist, then read-only queries that END BELOW the blocks' max
+		// time (the read-only open then skips the WAL replay - a different path through
+		// loadDataAsQueryable), on plain copies and on copies aged into a crash state
+		ops = append(ops, "begin")
+		for i := int64(1); i <= 3; i++ {
+			ops = append(ops, fmt.Sprintf("app %d %d %016x", r.Intn(nser), cur+i*cr, math.Float64bits(float64(i))))
+		}
+		ops = append(ops, "commit", "compact")
+		sb := func() string { return []string{"in", "out"}[r.Intn(2)] }
+		ops = append(ops,
+			fmt.Sprintf("roq %d %d %s crashcopy", int64(math.MinInt64), cur+cr-r.Range(0, 2), sb()),
+			fmt.Sprintf("roq %d %d %s crashcopy", base-cr, base+r.Range(0, 2)*step, sb()),
+			fmt.Sprintf("roq %d %d %s copy", int64(math.MinInt64), cur-r.Range(0, 3)*step, sb()),
+			fmt.Sprintf("roq %d %d %s clean", base, (base+cur)/2, sb()))
+		cur += 3 * cr
+	}
 	ops = append(ops, roOp(r, math.MinInt64, math.MaxInt64))
 	return ops
 }
